@@ -35,9 +35,18 @@ def gen_history(rng, budget, hw):
     live = []            # handle names
     nq = 0
     n_flush = 0
+    dead = []
     for _ in range(rng.randrange(4, 15)):
         r = rng.random()
         free_slots = limit - len(live)
+        for o in ops[-1:]:
+            if o["op"] == "free" or (o["op"] == "measure" and not o["inplace"]):
+                dead.append(o["q"])
+        if dead and rng.random() < 0.12:
+            # the program uses a handle it has given back (a slip): the SDK must refuse on the spot, nothing may be emitted
+            how = rng.choice(["gate", "rot", "reset", "cnot_c", "cnot_t"] if live else ["gate", "rot", "reset"])
+            ops.append({"op": "dead", "q": rng.choice(dead), "how": how, "other": rng.choice(live) if live else None})
+            continue
         if r < 0.22 and free_slots >= 1:
             nq += 1
             live.append(f"q{nq}")
@@ -270,6 +279,30 @@ def run_case(ctx, case):
                     handles[o["q"]].free()
                 elif k == "reset":
                     handles[o["q"]].reset()
+                elif k == "dead":
+                    from netqasm.sdk.qubit import QubitNotActiveError
+                    h = handles[o["q"]]
+                    pending = len(conn.builder._pending_commands)
+                    ctx.count("uses_of_a_returned_handle")
+                    try:
+                        if o["how"] == "gate":
+                            h.X()
+                        elif o["how"] == "rot":
+                            h.rot_Z(n=1, d=1)
+                        elif o["how"] == "reset":
+                            h.reset()
+                        elif o["how"] == "cnot_c":
+                            h.cnot(handles[o["other"]])
+                        else:
+                            handles[o["other"]].cphase(h)
+                        refused = False
+                    except QubitNotActiveError:
+                        refused = True
+                    if not refused or len(conn.builder._pending_commands) != pending:
+                        ctx.fail(case, f"the handle {o['q']} (virtual id {h.qubit_id}) was measured destructively / freed, yet the SDK accepted "
+                                       f"a {o['how']} through it: the emitted instruction addresses an id that is unallocated or belongs "
+                                       f"to a newer handle")
+                        return ctx.case(case, True)
                 elif k == "epr_keep":
                     ctx.count("epr_requests")
                     kw = {"sequential": True} if o.get("sequential") else {}
